@@ -39,8 +39,21 @@ func c18Cases(tier string, seed int64) []core.Case {
 		for _, family := range []string{"attach", "walk", "create", "rename", "mixed"} {
 			dotu, family := dotu, family
 			cases = append(cases, core.Case{ID: fmt.Sprintf("%s/dotu=%v", family, dotu), Run: func(ctx *core.Ctx) core.Result {
-				return c18Run(ctx, family, dotu, tier == "thorough")
+				return c18Run(ctx, family, dotu, tier == "thorough", "clean")
 			}})
+		}
+		// the same batteries against a server whose Root is configured in a spelling that is not the cleaned one
+		// (-root /srv/export/ from shell completion, a /./ or // inside it)
+		for _, spelling := range []string{"trailing-slash", "dot-element", "double-slash"} {
+			for _, family := range []string{"walk", "mixed"} {
+				dotu, family, spelling := dotu, family, spelling
+				if tier != "thorough" && ((family == "mixed") != dotu) {
+					continue
+				}
+				cases = append(cases, core.Case{ID: fmt.Sprintf("%s/dotu=%v/root-%s", family, dotu, spelling), Run: func(ctx *core.Ctx) core.Result {
+					return c18Run(ctx, family, dotu, tier == "thorough", spelling)
+				}})
+			}
 		}
 	}
 	return cases
@@ -154,9 +167,9 @@ func evilNames(sb *sandbox, depth int) []string {
 	return names
 }
 
-func c18Run(ctx *core.Ctx, family string, dotu bool, thorough bool) core.Result {
+func c18Run(ctx *core.Ctx, family string, dotu bool, thorough bool, spelling string) core.Result {
 	var res core.Result
-	r := core.NewRand(ctx.Seed, fmt.Sprintf("c18/%s/%v", family, dotu))
+	r := core.NewRand(ctx.Seed, fmt.Sprintf("c18/%s/%v/%s", family, dotu, spelling))
 	sb, err := newSandbox(ctx, "c18", r)
 	if err != nil {
 		res.Inconclusive = err.Error()
@@ -164,7 +177,16 @@ func c18Run(ctx *core.Ctx, family string, dotu bool, thorough bool) core.Result 
 	}
 	defer os.RemoveAll(sb.base)
 	e := &env{root: sb.root, dotu: dotu}
-	e.s = srvlab.NewUfsSess(sb.root, dotu, 1<<20)
+	exported := sb.root
+	switch spelling {
+	case "trailing-slash":
+		exported = sb.root + "/"
+	case "dot-element":
+		exported = filepath.Dir(sb.root) + "/./" + filepath.Base(sb.root)
+	case "double-slash":
+		exported = filepath.Dir(sb.root) + "//" + filepath.Base(sb.root)
+	}
+	e.s = srvlab.NewUfsSess(exported, dotu, 1<<20)
 	rootIno := uint64(0)
 	if fi, err := os.Lstat(sb.root); err == nil {
 		rootIno = fi.Sys().(*syscall.Stat_t).Ino
